@@ -90,6 +90,8 @@ Definition g_coro (x : ans) : coro :=
   | [ANum 1; p; k] => CRule (rule_start (g_bytes p) (g_kind k))
   | [ANum 2; _; ps] => CPages (pagesq_start (g_blist ps))
   | [ANum 3; o; au] => CNet (netq_start (g_bool o) (g_bool au))
+  | [ANum 4; w; ps; inb; int; outb] =>
+      CLinks (plinksq_start (g_num w) (g_blist ps) (g_bool inb) (g_bool int) (g_bool outb))
   | _ => CPages (pagesq_start [])
   end.
 Definition a_coro (c : coro) : ans :=
@@ -98,6 +100,7 @@ Definition a_coro (c : coro) : ans :=
   | CRule r => AList [a_bool (r_done r); a_reply (Report (r_n r) (r_c r))]
   | CPages q => AList [a_bool (q_done q); if q_refused q then ARefused else a_list a_page (q_acc q)]
   | CNet q => AList [a_bool (n_done q); a_graph (n_graph q)]
+  | CLinks q => AList [a_bool (l_done q); if l_refused q then ARefused else a_list a_link (l_acc q)]
   end.
 Fixpoint finish_all (n : nat) (cs : list coro) (m : traph) : list coro * traph :=
   match n with
